@@ -371,3 +371,228 @@ func init() {
 		return nil
 	})
 }
+
+// ---- Facts_vm_writes (C10) ----
+//
+// Every assignment, increment, append-assignment or map/slice element write in
+// internal/runtime and in programs.go / templates.go whose mutated object is
+// reached through a value of one of the types that are shared by all runs of a
+// built artefact (Function, NativeFunction, callable, Registers, Program,
+// Template), every write to a package level variable outside init, and every
+// call of a sync / atomic method on such an object. Joined with the committed
+// classification checks/C10_writes.json.
+
+var sharedTypeNames = map[string]bool{
+	"github.com/open2b/scriggo/internal/runtime.Function":       true,
+	"github.com/open2b/scriggo/internal/runtime.NativeFunction": true,
+	"github.com/open2b/scriggo/internal/runtime.callable":       true,
+	"github.com/open2b/scriggo/internal/runtime.Registers":      true,
+	"github.com/open2b/scriggo.Program":                         true,
+	"github.com/open2b/scriggo.Template":                        true,
+}
+
+func sharedType(t types.Type) bool {
+	for {
+		if p, ok := t.(*types.Pointer); ok {
+			t = p.Elem()
+			continue
+		}
+		break
+	}
+	n, ok := t.(*types.Named)
+	if !ok || n.Obj().Pkg() == nil {
+		return false
+	}
+	return sharedTypeNames[n.Obj().Pkg().Path()+"."+n.Obj().Name()]
+}
+
+// throughShared reports whether e, or an operand it is selected / indexed /
+// dereferenced from, has a shared type; also whether its root is a package level variable.
+func throughShared(p *packages.Package, e ast.Expr) (shared bool, global bool) {
+	for {
+		if t := p.TypesInfo.TypeOf(e); t != nil && sharedType(t) {
+			shared = true
+		}
+		switch x := e.(type) {
+		case *ast.SelectorExpr:
+			if id, ok := x.X.(*ast.Ident); ok {
+				if _, isPkg := p.TypesInfo.Uses[id].(*types.PkgName); isPkg {
+					if v, ok := p.TypesInfo.Uses[x.Sel].(*types.Var); ok && v.Parent() == v.Pkg().Scope() {
+						global = true
+					}
+					return
+				}
+			}
+			e = x.X
+		case *ast.IndexExpr:
+			e = x.X
+		case *ast.StarExpr:
+			e = x.X
+		case *ast.ParenExpr:
+			e = x.X
+		case *ast.SliceExpr:
+			e = x.X
+		case *ast.Ident:
+			if v, ok := p.TypesInfo.Uses[x].(*types.Var); ok && v.Pkg() != nil && v.Parent() == v.Pkg().Scope() {
+				global = true
+			}
+			return
+		default:
+			return
+		}
+	}
+}
+
+type writeSite struct {
+	key  string
+	kind string // assign, incdec, sync-call, global
+}
+
+func sharedWrites(w *world) []writeSite {
+	var out []writeSite
+	count := map[string]int{}
+	add := func(fn, what, kind string) {
+		k := fn + ": " + what
+		count[k]++
+		if count[k] > 1 {
+			k = fmt.Sprintf("%s #%d", k, count[k])
+		}
+		out = append(out, writeSite{k, kind})
+	}
+	scan := func(p *packages.Package, onlyFiles map[string]bool, prefix string) {
+		for _, f := range p.Syntax {
+			name := filepath.Base(p.Fset.Position(f.Pos()).Filename)
+			if strings.HasSuffix(name, "_test.go") || strings.HasPrefix(name, "verif_") {
+				continue
+			}
+			if onlyFiles != nil && !onlyFiles[name] {
+				continue
+			}
+			for _, d := range f.Decls {
+				fd, ok := d.(*ast.FuncDecl)
+				if !ok || fd.Body == nil {
+					continue
+				}
+				fname := fd.Name.Name
+				if fd.Recv != nil && len(fd.Recv.List) == 1 {
+					t := fd.Recv.List[0].Type
+					if s, ok := t.(*ast.StarExpr); ok {
+						t = s.X
+					}
+					fname = exprString(t) + "." + fname
+				}
+				fname = prefix + fname
+				isInit := fd.Name.Name == "init" && fd.Recv == nil
+				lhs := func(e ast.Expr, kind string) {
+					// the mutated object is what the last selector / index is applied to
+					var obj ast.Expr
+					switch x := e.(type) {
+					case *ast.SelectorExpr:
+						obj = x.X
+					case *ast.IndexExpr:
+						obj = x.X
+					case *ast.StarExpr:
+						obj = x.X
+					case *ast.Ident:
+						if v, ok := p.TypesInfo.Uses[x].(*types.Var); ok && v.Pkg() != nil && v.Parent() == v.Pkg().Scope() && !isInit {
+							add(fname, exprString(e), "global")
+						}
+						return
+					default:
+						return
+					}
+					sh, gl := throughShared(p, obj)
+					if sh {
+						add(fname, exprString(e), kind)
+					} else if gl && !isInit {
+						add(fname, exprString(e), "global")
+					}
+				}
+				ast.Inspect(fd.Body, func(n ast.Node) bool {
+					switch s := n.(type) {
+					case *ast.AssignStmt:
+						if s.Tok == token.DEFINE {
+							return true
+						}
+						for _, l := range s.Lhs {
+							lhs(l, "assign")
+						}
+					case *ast.IncDecStmt:
+						lhs(s.X, "incdec")
+					case *ast.CallExpr:
+						se, ok := s.Fun.(*ast.SelectorExpr)
+						if !ok {
+							return true
+						}
+						sel := p.TypesInfo.Selections[se]
+						if sel == nil || sel.Kind() != types.MethodVal {
+							return true
+						}
+						rt := sel.Recv()
+						for {
+							if pt, ok := rt.(*types.Pointer); ok {
+								rt = pt.Elem()
+								continue
+							}
+							break
+						}
+						nt, ok := rt.(*types.Named)
+						if !ok || nt.Obj().Pkg() == nil {
+							return true
+						}
+						if pk := nt.Obj().Pkg().Path(); pk != "sync" && pk != "sync/atomic" {
+							return true
+						}
+						if sh, gl := throughShared(p, se.X); sh || gl {
+							add(fname, exprString(se.X)+"."+se.Sel.Name+"()", "sync-call")
+						}
+					}
+					return true
+				})
+			}
+		}
+	}
+	scan(w.pkg("internal/runtime"), nil, "runtime.")
+	scan(w.pkg(""), map[string]bool{"programs.go": true, "templates.go": true}, "scriggo.")
+	return out
+}
+
+func init() {
+	register("Facts_vm_writes", func(w *world, b *bytes.Buffer) error {
+		sites := sharedWrites(w)
+		by, err := os.ReadFile(filepath.Join(checksDir(), "C10_writes.json"))
+		if err != nil {
+			return err
+		}
+		var doc struct {
+			Writes map[string]struct {
+				Class string `json:"class"`
+			} `json:"writes"`
+		}
+		if err := json.Unmarshal(by, &doc); err != nil {
+			return err
+		}
+		classCode := map[string]int{"per-run-object": 1, "constructor": 2, "sync-pool": 3, "idempotent-cache": 4, "build-time": 5}
+		kindCode := map[string]int{"assign": 0, "incdec": 1, "sync-call": 2, "global": 3}
+		fmt.Fprintf(b, "(* writes whose target is reached through a value shared by all runs of a built artefact, writes to\n   package level variables, calls of sync methods on them: (kind 0 assign 1 incdec 2 sync-call 3 global,\n   class of checks/C10_writes.json: 0 unclassified 1 per-run-object 2 constructor 3 sync-pool 4 idempotent-cache 5 build-time) *)\n")
+		fmt.Fprintf(b, "Definition shared_writes : list (N * N) := [")
+		seen := map[string]bool{}
+		for i, s := range sites {
+			if i > 0 {
+				b.WriteString(";")
+			}
+			seen[s.key] = true
+			fmt.Fprintf(b, "\n  (* %s *) (%d, %d)", strings.ReplaceAll(s.key, "*)", "* )"), kindCode[s.kind], classCode[doc.Writes[s.key].Class])
+		}
+		b.WriteString("].\n\n")
+		var stale []string
+		for k := range doc.Writes {
+			if !seen[k] {
+				stale = append(stale, k)
+			}
+		}
+		sort.Strings(stale)
+		fmt.Fprintf(b, "(* entries of checks/C10_writes.json without a site in the code: %s *)\nDefinition stale_write_entries : N := %d.\n", strings.ReplaceAll(fmt.Sprint(stale), "*)", "* )"), len(stale))
+		return nil
+	})
+}
